@@ -8,7 +8,8 @@ from .. import shimlab as S
 ID = "C07"
 LEVEL = "exploration"
 RULE = ("trees {plain, with hard links and symlinks (-S), hostile file names} x group mode: no transform, or transform "
-        "I/O mode {stdin/stdout pipe, $IN, $OUT, $IN $OUT, --in-place, $IN --no-copy, --in-place --no-copy} x program "
+        "I/O mode {stdin/stdout pipe, $IN, $OUT, $IN $OUT, $IN/$OUT embedded in a larger argument, --in-place, $IN --no-copy, "
+        "--in-place --no-copy} x program "
         "behaviour {copies input to output, ignores its input, exits 1, writes garbage to $IN (copy mode only), reads $IN "
         "without writing (in-place)} x --cache x {stdout, -o file} x format {default, json}; and remove / link / link "
         "--soft / dedupe / move with --dry-run (stdout and -o file) x 6 option sets. Oracle: lstat+sha256 inventory incl. "
@@ -42,6 +43,11 @@ TRANSFORMS = [
     ("inplace_keep", ["--transform", "fcv-tr-inplace keep $IN", "--in-place"]),
     ("inplace_garbage", ["--transform", "fcv-tr-inplace garbage $IN", "--in-place"]),
     ("inplace_noop", ["--transform", "fcv-tr-inplace noop $IN", "--in-place"]),
+    # $IN / $OUT embedded in a larger argument (tool --file=$IN, dd if=$IN of=$OUT)
+    ("in_embedded_keep", ["--transform", "fcv-tr keep if=$IN"]),
+    ("in_embedded_garbage", ["--transform", "fcv-tr-inplace garbage --file=$IN"]),
+    ("inout_embedded_keep", ["--transform", "fcv-tr keep if=$IN of=$OUT"]),
+    ("inplace_embedded_garbage", ["--transform", "fcv-tr-inplace garbage --file=$IN", "--in-place"]),
     ("in_nocopy_keep", ["--transform", "fcv-tr keep $IN", "--no-copy"]),
     ("inout_nocopy_keep", ["--transform", "fcv-tr keep $IN $OUT", "--no-copy"]),
     ("inplace_nocopy_noop", ["--transform", "fcv-tr-inplace noop $IN", "--in-place", "--no-copy"]),
@@ -63,7 +69,7 @@ def cases(tier, seed):
                 for outmode in ("stdout", "file"):
                     for fmt in ("default", "json"):
                         i += 1
-                        if quick and (i % 4) and tname not in ("inplace_nocopy_noop",):
+                        if quick and (i % 4) and tname not in ("inplace_nocopy_noop", "in_embedded_garbage", "inplace_embedded_garbage"):
                             continue
                         out.append({"kind": "group", "tree": t, "transform": tname, "targs": targs, "cache": cache,
                                     "out": outmode, "fmt": fmt})
